@@ -287,17 +287,25 @@ theorem C20_refresh_in_early_callback_counterexample :
 
 /-! ### Part 5 — cron (reference semantics; ccronexpr itself is tied by correspondence only) -/
 
-/-- the executable reference returns the EARLIEST instant after t that lies on a day the expression
-allows (month AND day-of-month AND weekday, as ccronexpr combines them) at an allowed time of day —
-for every expression, every t, every horizon. -/
+/-- whenever the reference (ccronexpr's search order and year horizon included) returns an instant, it is
+the EARLIEST instant after t that lies on a day the expression allows (month AND day-of-month AND
+weekday, as ccronexpr combines them) at an allowed time of day — for every expression, t and scan bound. -/
 theorem C20_cron_earliest (e : Cron.Expr) (t H r : Nat) (h : Cron.nextCron e t H = some r) :
     Earliest (Cron.CronMatch e) t r :=
   Cron.nextCron_some e t H r h
 
-/-- and when it finds nothing there is no matching instant on any day up to `H` days ahead -/
+/-- when the reference finds nothing, the day search did not end on a day (or the time-of-day set is
+empty — impossible for a parsed expression) … -/
 theorem C20_cron_none (e : Cron.Expr) (t H : Nat) (h : Cron.nextCron e t H = none) :
-    ∀ r', t < r' → r' / 86400 ≤ t / 86400 + H → ¬ Cron.CronMatch e r' :=
+    Cron.leastFrom (Cron.timeOk e) 0 86400 = none ∨ ∀ d, Cron.nextCronDay e t H ≠ .found d :=
   Cron.nextCron_none e t H h
+
+/-- … and when the day search gave up at ccronexpr's year horizon (`tm_year - dot > 4` at a jump to the
+next allowed month) it reports the landing day `L`: its calendar year exceeds dot + 4 and NO instant
+after t before day `L` matches — so "none" never hides a match that lies before the horizon. -/
+theorem C20_cron_horizon (e : Cron.Expr) (t H L : Nat) (h : Cron.nextCronDay e t H = .beyond L) :
+    Cron.yearOf L > Cron.cronDot e t + 4 ∧ ∀ r', t < r' → r' / 86400 < L → ¬ Cron.CronMatch e r' :=
+  Cron.nextCron_beyond e t H L h
 
 /-! ### non-vacuity -/
 
